@@ -52,26 +52,28 @@ class VariableTransformer:
         if plausible_upper_bounds is None:
             plausible_upper_bounds = np.copy(upper_bounds)
 
+        # float copies: the log transform below is applied in place and
+        # would be truncated in integer-typed bound arrays
         lb = (
-            lower_bounds.copy()
+            np.array(lower_bounds, dtype=float)
             if lower_bounds is not None
             else np.ones((1, D)) * -np.inf
         )
         ub = (
-            upper_bounds.copy()
+            np.array(upper_bounds, dtype=float)
             if upper_bounds is not None
             else np.ones((1, D)) * np.inf
         )
 
         plb = (
-            lower_bounds.copy()
+            np.array(lower_bounds, dtype=float)
             if (plausible_lower_bounds is None)
-            else plausible_lower_bounds.copy()
+            else np.array(plausible_lower_bounds, dtype=float)
         )
         pub = (
-            upper_bounds.copy()
+            np.array(upper_bounds, dtype=float)
             if (plausible_upper_bounds is None)
-            else plausible_upper_bounds.copy()
+            else np.array(plausible_upper_bounds, dtype=float)
         )
 
         if np.isscalar(lb):
